@@ -10,7 +10,7 @@
    the caller calls Release. *)
 From Coq Require Import List NArith Bool String.
 Import ListNotations.
-From OV Require Import Base.Bytes Base.Tree Model.Stream Proofs.Stream Proofs.StreamXml Proofs.StreamJson.
+From OV Require Import Base.Bytes Base.Tree Model.Stream Proofs.Stream Proofs.StreamXml Proofs.StreamJson Proofs.StreamSplit.
 
 (* For every XML document, every target of the class and every Release pattern: the reader ends
    with EOF and the delivered snapshots are exactly the whole-document selection (same nodes,
@@ -43,6 +43,17 @@ Proof. exact json_stream_eq_select_proof. Qed.
 Theorem whole_doc_selection_is_spec : forall pm pred doc,
   whole_doc_selection pm pred doc = spec pm pred [] doc.
 Proof. exact whole_doc_selection_is_spec. Qed.
+
+(* removeTrailingFiltersInXPath on the concrete syntax: for every well-formed target of the class
+   (names without quotes, brackets or blanks; string values that do not contain both kinds of
+   quote - anything else, including brackets and the other quote, is allowed inside; nested
+   predicates x[...]; any number of trailing predicates) the text used for the candidate check is
+   exactly the path part, the closing check is installed iff there is a predicate, and the fuel
+   of the modelled loop suffices. *)
+Theorem split_filter_sound : forall tg, target_ok tg ->
+  split_filter (render_target tg) =
+  Some (render_steps (t_steps tg), negb (match t_filters tg with [] => true | _ => false end)).
+Proof. exact split_filter_sound_proof. Qed.
 
 Theorem release_then_prologue : forall st st1,
   release st = Some st1 -> read_prologue st1 = read_prologue st.
@@ -107,3 +118,25 @@ Example nonvacuous_json :
   /\ map fst (fst (jrun (fun c => match c with [] => true | _ => false end) ptrue false false j_init []
                         (jdoc_events (JS [] (JNumT (bs "5")))))) = [jdoc_tree (JS [] (JNumT (bs "5")))].
 Proof. vm_compute. repeat split. Qed.
+
+(* split_filter_sound is not vacuous: brackets and the other quote inside values, nesting *)
+Example split_filter_nonvacuous :
+  let tg := mkTarget [(Desc, nt "n"); (Child, NTAny)]
+              [PChildEq (nt "x") (bs "a]b"); PChildPred (NTName (bs "p") (bs "y")) (PSelfEq (bs "[x='1']"));
+               PAnd (PAttrEq ([], bs "id") (bs "say ""hi""")) (PNot (PTextEq (bs "it's")))] in
+  target_ok tg /\
+  render_target tg = bs "//n/*[x='a]b'][p:y[.=""[x='1']""]][(@id='say ""hi""') and (not(text()=""it's""))]".
+Proof.
+  split; [|vm_compute; reflexivity].
+  unfold target_ok. cbn [t_steps t_filters].
+  repeat match goal with
+         | |- _ /\ _ => split
+         | |- Forall _ (_ :: _) => apply Forall_cons
+         | |- Forall _ [] => apply Forall_nil
+         | |- True => exact I
+         | |- _ \/ _ => first [left; reflexivity | right]
+         | |- _ <> _ => discriminate
+         | |- _ = _ => reflexivity
+         | |- _ => progress (unfold nt; cbn [snd fst pexp_ok nt_ok]; unfold qname_ok, name_ok, value_ok)
+         end.
+Qed.
